@@ -164,32 +164,47 @@ def r10_3(ctx):
 
 
 def r10_4(ctx):
-    """R10.4 _is_min_config_sym compares the computed value with the default oracle and nothing else decides omission:
-    its three rejection tests are (not user-changeable: visibility <= select), (value == _str_default()), (choice member
-    that is the default selection)."""
+    """R10.4 _is_min_config_sym compares the computed value with the default oracle and nothing else decides omission: as
+    a boolean function of its atomic tests (whatever the spelling: guard clauses, one expression, arms per kind of symbol)
+    it keeps a symbol exactly when none of (not a choice member and visibility <= select), (value == _str_default()),
+    (choice member that is the bool-y default selection) holds."""
+    from .common import AcceptCondition
     repo = ctx.repo
     f = repo.func(f"{CORE}:Kconfig._is_min_config_sym")
     ctx.analysed(f.qual)
     sym = f.node.args.args[1].arg
-    tests = [ast.unparse(n.test) for n in f.node.body if isinstance(n, ast.If)]
-    rets = [n for n in f.node.body if isinstance(n, ast.Return)]
     construct = "Kconfig._is_min_config_sym/omission tests"
-    want = [f"not {sym}.choice and {sym}.visibility <= expr_value({sym}.rev_dep)", f"{sym}.str_value == {sym}._str_default()"]
-    msgs = []
-    for w in want:
-        if w not in tests:
-            msgs.append(f"missing test `{w}`")
-    ch = [t for t in tests if "_selection_from_defaults() is " + sym in t]
-    if not ch or f"{sym}.bool_value == 2" not in ch[0] or f"{sym}.choice" not in ch[0]:
-        msgs.append("choice default-selection test changed")
-    if len(tests) != 3:
-        msgs.append(f"{len(tests)} omission tests instead of 3")
-    if not rets or ast.unparse(rets[-1].value) != "True":
-        msgs.append("does not end with `return True`")
-    for n in f.node.body:
-        if isinstance(n, ast.If) and not (len(n.body) == 1 and isinstance(n.body[0], ast.Return) and ast.unparse(n.body[0].value) == "False"):
-            msgs.append("an omission arm does something other than `return False`")
-    (ctx.bad(construct, "; ".join(msgs), f.loc()) if msgs else ctx.ok(construct, f.loc(), tests=tests))
+    ac = AcceptCondition(f.node)
+    A = {"choice": f"{sym}.choice", "pinned": f"{sym}.visibility <= expr_value({sym}.rev_dep)",
+         "dflt": f"{sym}.str_value == {sym}._str_default()", "sel": f"{sym}.choice._selection_from_defaults() is {sym}",
+         "bool": f"{sym}.orig_type == BOOL", "y": f"{sym}.bool_value == 2"}
+    alt = {f"{sym}.visibility > expr_value({sym}.rev_dep)": ("pinned", False), f"{sym}.orig_type is BOOL": ("bool", True),
+           f"{sym}.bool_value": ("y", True), f"{sym}.bool_value != 0": ("y", True)}
+    unknown = [a for a in ac.atoms if a not in A.values() and a not in alt]
+    missing = [k for k, a in A.items() if a not in ac.atoms and not any(v[0] == k and t in ac.atoms for t, v in alt.items())]
+    if unknown or missing:
+        ctx.bad(construct, f"the omission decision reads {unknown or 'nothing new'} and no longer reads {[A[k] for k in missing] or 'everything it did'}: "
+                "what the minimal configuration leaves out is no longer `unchanged default, pinned by select, or the default pick of a choice`", f.loc())
+        return
+    import itertools
+    keys = list(A)
+    for vals in itertools.product((True, False), repeat=len(keys)):
+        w = dict(zip(keys, vals))
+        if not w["choice"] and w["sel"]:
+            continue  # `sym.choice._selection_from_defaults()` is not evaluated for a plain symbol
+        v = {A[k]: w[k] for k in keys if A[k] in ac.atoms}
+        for t, (k, pos) in alt.items():
+            if t in ac.atoms:
+                v[t] = w[k] if pos else (not w[k])
+        spec = not ((not w["choice"] and w["pinned"]) or w["dflt"] or (w["choice"] and w["sel"] and w["bool"] and w["y"]))
+        try:
+            got = bool(ac.accept(v))
+        except KeyError:
+            continue
+        if got != spec:
+            ctx.bad(construct, f"with {w} the symbol is {'kept' if got else 'left out'} although it should be {'kept' if spec else 'left out'}", f.loc())
+            return
+    ctx.ok(construct, f.loc(), atoms=ac.atoms)
 
 
 RECORD_TEXT_FUNCS = ("Kconfig.write_min_config", "Kconfig._min_config_contents", "Kconfig._min_config_contents_with_labels",
